@@ -141,7 +141,7 @@ func (p C03) Run(c *sim.Ctx, t *sim.Tape) sim.RunResult {
 	build := []fsx.Op{
 		{K: "Mkdir", P: "/p", Perm: 0o777}, {K: "Mkdir", P: "/p/q", Perm: 0o777}, {K: "WriteFile", P: "/p/q/f", Data: "F", Perm: 0o666},
 		{K: "WriteFile", P: "/p/g", Data: "G", Perm: 0o666}, {K: "Mkdir", P: "/r", Perm: 0o777}, {K: "WriteFile", P: "/r/h", Data: "H", Perm: 0o666},
-		{K: "Mkdir", P: "/r/s", Perm: 0o777}, {K: "Symlink", P: "/p/g", Q: "/r/l"},
+		{K: "Mkdir", P: "/r/s", Perm: 0o777}, {K: "Symlink", P: "/p/g", Q: "/r/l"}, {K: "Mkdir", P: "/p/q/e", Perm: 0o777},
 	}
 
 	for _, o := range build {
@@ -150,7 +150,7 @@ func (p C03) Run(c *sim.Ctx, t *sim.Tape) sim.RunResult {
 		}
 	}
 
-	nodes := []string{"/p", "/p/q", "/p/q/f", "/p/g", "/r", "/r/h", "/r/s"}
+	nodes := []string{"/p", "/p/q", "/p/q/f", "/p/g", "/r", "/r/h", "/r/s", "/p/q/e"}
 
 	for _, n := range nodes {
 		if do(admin, fsx.Op{K: "Chown", P: n, Uid: ids[t.Int(4)], Gid: gids[t.Int(3)]}) {
@@ -162,7 +162,7 @@ func (p C03) Run(c *sim.Ctx, t *sim.Tape) sim.RunResult {
 		}
 	}
 
-	paths := []string{"/p", "/p/q", "/p/q/f", "/p/g", "/r", "/r/h", "/r/s", "/p/x", "/p/q/x", "/r/x", "/r/s/x", "/r/l", "/p/q/f/x", "/x", "/tmp/x"}
+	paths := []string{"/p", "/p/q", "/p/q/f", "/p/g", "/r", "/r/h", "/r/s", "/p/x", "/p/q/x", "/r/x", "/r/s/x", "/r/l", "/p/q/f/x", "/x", "/tmp/x", "/p/q/e", "/p/q/e/x"}
 	path := func() string { return paths[t.Int(len(paths))] }
 	kinds := []string{
 		"Mkdir", "OpenFile", "Create", "WriteFile", "ReadFile", "ReadDir", "Remove", "RemoveAll", "Rename", "Link", "Symlink", "Truncate", "Chmod", "Chown",
@@ -233,7 +233,7 @@ func (p C03) Run(c *sim.Ctx, t *sim.Tape) sim.RunResult {
 		case "FReadDir":
 			o.H, o.N = slot, -1
 		case "Mkdir", "MkdirAll":
-			o.P, o.Perm = path(), []uint32{0o777, 0o755, 0o700}[t.Int(3)]
+			o.P, o.Perm = path(), []uint32{0o777, 0o755, 0o700, 0o1777, 0o1770}[t.Int(5)]
 		case "OpenFile":
 			o.P, o.Flag, o.Perm, o.H = path(), genFlags(t), []uint32{0o666, 0o644, 0o600, 0o777, 0o444, 0o400}[t.Int(6)], slot
 		case "Create":
